@@ -244,33 +244,83 @@ static std::string run_entry(const MutEntry &e, nix::File &f) {
     return "OK";
 }
 
+// Run `fn` in a forked child with a CPU-time limit: a mutator that loops for ever on a read-only file must not
+// take the driver with it.  Result: the child's exit code (0..9 chosen by fn), "HANG" or "CRASH".
+static std::string in_child(const std::function<int()> &fn) {
+    std::cout.flush();
+    pid_t pid = ::fork();
+    if (pid < 0) throw std::logic_error("fork failed");
+    if (pid == 0) {
+        struct rlimit rl;
+        rl.rlim_cur = 3; rl.rlim_max = 4;           // seconds of CPU time of this child
+        ::setrlimit(RLIMIT_CPU, &rl);
+        int rc = 9;
+        try { rc = fn(); } catch (...) { rc = 8; }
+        ::_exit(rc);
+    }
+    int status = 0;
+    // wall-clock guard for a child that blocks without using CPU
+    for (int waited = 0; ; waited++) {
+        pid_t r = ::waitpid(pid, &status, WNOHANG);
+        if (r == pid) break;
+        if (waited > 120000) { ::kill(pid, SIGKILL); ::waitpid(pid, &status, 0); return "HANG"; }
+        ::usleep(1000);
+    }
+    if (WIFSIGNALED(status)) return (WTERMSIG(status) == SIGXCPU || WTERMSIG(status) == SIGKILL) ? "HANG" : "CRASH";
+    return std::to_string(WEXITSTATUS(status));
+}
+
+static std::string verdict(const std::string &rc) {
+    if (rc == "0") return "OK";
+    if (rc == "1") return "ERR";
+    if (rc == "2") return "OPENFAIL";
+    if (rc == "HANG") return "HANG";
+    return "CRASH";
+}
+
+//   romut <name> <comp> <force>   a whole read-only session around one mutator, in a child process
+//   rwmut <name>                  the same mutator in a read-write session on a scratch copy
+//   nomut <name> <ro|rw>          a call that has nothing to write
 static std::string do_mut(const std::vector<std::string> &t) {
     const std::string &name = t.at(1);
     const MutEntry *e = find_entry(t[0] == "nomut" ? nomut_table() : mut_table(), name);
     if (!e) return name + " UNKNOWN";
-    if (t[0] == "mutrw") {
-        // the same call on a read-write scratch copy of the (closed) case file
-        if (S.f) throw std::logic_error("bad script: mutrw with an open session");
+    if (S.f) throw std::logic_error("bad script: " + t[0] + " with an open session");
+    bool ro = t[0] == "romut" || (t[0] == "nomut" && t.at(2) == "ro");
+    if (!ro) {
         std::string scratch = S.path + ".scratch";
         copy_file(S.path, scratch);
-        std::string res;
-        {
-            nix::File g = nix::File::open(scratch, nix::FileMode::ReadWrite);
-            res = run_entry(*e, g);
+        std::string rc = in_child([&]() {
+            nix::File g;
+            try { g = nix::File::open(scratch, nix::FileMode::ReadWrite); } catch (...) { return 2; }
+            int res = run_entry(*e, g) == "OK" ? 0 : 1;
             g.close();
-        }
+            return res;
+        });
+        std::string after = "";
         // the scratch copy must still open (the mutator left a valid file).  Only the small tree is read back:
         // a grown data frame has never-written String cells, whose read is a defect that belongs to C15
-        {
+        try {
             nix::File g = nix::File::open(scratch, nix::FileMode::ReadOnly);
             small_dump(g);
             g.close();
-        }
+        } catch (...) { after = " BROKEN-FILE"; }
         ::unlink(scratch.c_str());
-        return name + " " + res;
+        return name + " " + verdict(rc) + after;
     }
-    need_session();
-    return name + " " + run_entry(*e, S.f);
+    nix::Compression comp = t[0] == "romut" ? parse_comp(t.at(2)) : nix::Compression::Auto;
+    bool force = t[0] == "romut" && t.at(3) == "1";
+    std::string before = sha_file(S.path);
+    std::string rc = in_child([&]() {
+        nix::File g;
+        try { g = nix::File::open(S.path, nix::FileMode::ReadOnly, "hdf5", comp, force ? nix::OpenFlags::Force : nix::OpenFlags::None); }
+        catch (...) { return 2; }
+        int res = run_entry(*e, g) == "OK" ? 0 : 1;
+        g.close();
+        return res;
+    });
+    std::string after = sha_file(S.path);
+    return name + " " + verdict(rc) + (before == after ? " sha-same" : " sha-DIFF");
 }
 
 // ---- handles --------------------------------------------------------------------------------------
@@ -353,7 +403,7 @@ static std::string handle(const std::vector<std::string> &t);
 
 static bool replayable(const std::string &c) {
     static const std::set<std::string> s = {"fs", "hdr", "open", "blk", "sec", "arr", "set", "prop", "delblk", "delsec", "delarr", "rich",
-                                            "flush", "close", "hold", "drop", "mut", "nomut", "battery", "dump"};
+                                            "flush", "close", "hold", "drop", "battery", "dump"};
     return s.count(c) > 0;
 }
 
@@ -496,7 +546,7 @@ static std::string handle_inner(const std::vector<std::string> &t) {
     }
     if (c == "sha0") { S.sha0 = sha_file(S.path); return "sha"; }
     if (c == "sha?") { return sha_file(S.path) == S.sha0 ? "sha-same" : "sha-DIFF"; }
-    if (c == "mut" || c == "nomut" || c == "mutrw") return do_mut(t);
+    if (c == "romut" || c == "nomut" || c == "rwmut") return do_mut(t);
     if (c == "battery") return battery();
     if (c == "flush") {
         need_session();
